@@ -254,4 +254,60 @@ PROPS = {
                     "stream framing on the sending side is exercised, not modelled."),
         engine="codec-harness+fact-extractor",
     ),
+    "C03": dict(
+        lean_modules=['Swim.Model.Probe', 'Swim.Model.Susp', 'Swim.Lemmas.Merge', 'Swim.Props.C06', 'Swim.Props.C03'],
+        tests="^TestC03$",
+        timeout_quick=400,
+        shards_quick=4,
+        rule="(cursor) the real probe() driven tick by tick on a node whose membership changes in between (inserts with random offsets, deaths, departures, aged records, revivals), each ping answered at once; the probed target, probeIndex and list order after every tick are compared with the model (the shuffle at a wrap is observed); (sim) clusters of 3-12 nodes (thorough: to 40) with crashes at random times incl. during joins and push/pulls, 0-20% loss among survivors, half of the runs with every suspect/dead message between survivors dropped (own evidence), occasional encryption+label; every survivor's drop time is compared with detectBound evaluated at the slowest pace the survivor showed; non-trivial = 5+ probe ticks / 2+ (survivor, crashed) pairs",
+        trusted_base=COMMON_TB + ["testing/synctest virtual time: Go timers, channels and the scheduler inside a bubble; processing time is zero",
+                                  "the simulator transport (non-blocking delivery, latency/loss/duplication/partition injection, net.Pipe streams)",
+                                  "math/rand target selection is seeded but goroutine scheduling is not fully deterministic: the recorded outcome is the replay artifact"],
+        assumptions=["goroutine scheduling delays and real network timing are not modelled (virtual time)"],
+        level_text='Proof (partial): probe target is never self or dead, each eligible peer is returned in list order before the wrap-around (pass_step), the local and listed records survive reaping, the stale-timer and timeout bounds of C06, monotonicity of the bound (Lean). Tied by an exact cursor correspondence on the real probe() and by crash simulations in virtual time against the bound.',
+        level_note="Partial: the time per probe tick (awareness-scaled interval), the ticker and TCP-fallback timing are observed in virtual time, not derived; the bound is measured from the later of the crash and the survivor's last join/update event for the member.",
+        engine="cluster-simulator",
+    ),
+    "C04": dict(
+        lean_modules=['Swim.Model.Acks', 'Swim.Lemmas.Merge', 'Swim.Props.C19', 'Swim.Props.C18', 'Swim.Props.C04'],
+        tests="^TestC04$",
+        timeout_quick=400,
+        shards_quick=4,
+        rule='healthy clusters of 3-10 nodes in virtual time: every packet delivered within half the probe timeout (a third of the runs with every packet exactly at the bound), staggered joins, UpdateNode, graceful leaves (the leaver keeps running), user messages, IndirectChecks 0/1/3, TCP pings on/off; a wire tap looks for suspect messages, every node is polled for health score, suspect/dead records, leave events of live members, conflicts, callback overlap, and event-log = Members(); non-trivial = 3+ user operations',
+        trusted_base=COMMON_TB + ["testing/synctest virtual time: Go timers, channels and the scheduler inside a bubble; processing time is zero",
+                                  "the simulator transport (non-blocking delivery, latency/loss/duplication/partition injection, net.Pipe streams)",
+                                  "math/rand target selection is seeded but goroutine scheduling is not fully deterministic: the recorded outcome is the replay artifact"],
+        assumptions=["goroutine scheduling delays and real network timing are not modelled (virtual time)"],
+        level_text='Proof (partial): an ack within the latency bound answers the probe (no suspicion, score moves down); alive claims and self-signed departures never create a suspicion, a timer or a failure record and never touch the score (Lean). Tied by healthy-cluster simulations on the real code.',
+        level_note="Partial: 'responsive' and 'delivered within half the probe timeout' are runtime conditions stated as hypotheses and realised by the simulator; the cluster-level invariant over all interleavings is sampled, not proved. Interpretation: a leave event for a member that itself called Leave is legitimate.",
+        engine="cluster-simulator",
+    ),
+    "C05": dict(
+        lean_modules=['Swim.Lemmas.Merge', 'Swim.Props.C02', 'Swim.Props.C09', 'Swim.Props.C05'],
+        tests="^TestC05$",
+        timeout_quick=400,
+        shards_quick=4,
+        rule='clusters of 3-10 nodes: a fault phase of 10-40 virtual seconds (0-50% loss, duplication, delays to 2 s, up to two partitions of 1-13 s, crashes, leave+shutdown, same-address restarts with a fresh incarnation, metadata updates), then a perfect network; connectivity of the listing graph is evaluated when faults stop and the final state after 10 push/pull intervals + 200 s is classified converged / stable split / not converged (lists a departed member, views differ inside a group, stale metadata, sticking accusation); non-trivial = a history with departures or restarts',
+        trusted_base=COMMON_TB + ["testing/synctest virtual time: Go timers, channels and the scheduler inside a bubble; processing time is zero",
+                                  "the simulator transport (non-blocking delivery, latency/loss/duplication/partition injection, net.Pipe streams)",
+                                  "math/rand target selection is seeded but goroutine scheduling is not fully deterministic: the recorded outcome is the replay artifact"],
+        assumptions=["goroutine scheduling delays and real network timing are not modelled (virtual time)"],
+        level_text="Proof (partial): an accusation is overridden wherever the accused's newer alive claim is delivered; the accused always produces such a claim; a state exchange only moves views forward (Lean). Convergence itself is classified by the simulator on every history.",
+        level_note='Partial: settling time and convergence depend on random target selection. Known finding C05-stable-split (protocol-level, no re-join mechanism); every other non-converged final state is reported.',
+        engine="cluster-simulator",
+    ),
+    "C20": dict(
+        lean_modules=['Swim.Model.Merge', 'Swim.Props.C20'],
+        tests="^TestC20$",
+        timeout_quick=400,
+        shards_quick=4,
+        rule='a node of a live 3-node cluster in virtual time receives 6-30 public API calls (Members, NumMembers, LocalNode, UpdateNode incl. timeout 0, SendBestEffort, SendReliable, SendToAddress, Ping, GetHealthScore, Join, Leave, ProtocolVersion) from 1-3 goroutines at the stages joined, left, left-and-reaped (after GossipToTheDeadTime and a probe wrap), then two concurrent Shutdown calls racing further calls; every call runs under a watchdog (panic, blocking, overrunning its timeout); send attempts long after Shutdown and goroutines still blocked at the end of the bubble are findings; non-trivial = 10+ calls',
+        trusted_base=COMMON_TB + ["testing/synctest virtual time: Go timers, channels and the scheduler inside a bubble; processing time is zero",
+                                  "the simulator transport (non-blocking delivery, latency/loss/duplication/partition injection, net.Pipe streams)",
+                                  "math/rand target selection is seeded but goroutine scheduling is not fully deterministic: the recorded outcome is the replay artifact"],
+        assumptions=["goroutine scheduling delays and real network timing are not modelled (virtual time)"],
+        level_text='Proof (partial): a stage model of the public API in which the only panic is the documented Leave-after-Shutdown and no call blocks, idempotence of Leave and Shutdown, the local record is never reaped; fact theorems regenerated from the source: Shutdown closes the transport first, every background loop selects on the shutdown channel, the list of go statements (Lean). Tied by API sequences on real nodes in virtual time with goroutine accounting.',
+        level_note='Partial: data races and lock-order deadlocks among real goroutines are sampled (virtual time, watchdogs), not proved; a mutex wait is not a durable block under synctest, so two overlapping Leave calls are not generated. Known finding: Members() hands out pointers into live state (race with aliveNode; race detector leg not part of the quick tier).',
+        engine="cluster-simulator",
+    ),
 }
